@@ -84,7 +84,7 @@ func runScenario(s *Scenario) (fail string, forced bool) {
 	}
 	check := func(where string, x *state.StateDB) bool {
 		c := oracle(x)
-		for _, f := range []string{c.stat, c.index, c.sums, c.units, c.links} {
+		for _, f := range []string{c.stat, c.index, c.sums, c.units, c.links, c.acct} {
 			if f != "" {
 				fail = where + ": " + f
 				return false
